@@ -78,19 +78,21 @@ Theorem C13_json_is_resolution_on : forall (fe fs : nat) (d d' : node) (v : valu
 Proof. exact explode_is_resolve. Qed.
 Print Assumptions C13_json_is_resolution_on.
 
-(* the routes, for every document of the domain and every path the spec can read:
+(* the three routes, for every document of the domain and every path the spec can read:
    route 1 - traversal of the un-exploded document reaches a node whose printed
-   (exploded) value is the spec's value at that path; routes 2 / 3 - the exploded
-   document holds an equal value at that path.  (What is not proved: that the
-   model's [traverse] on the exploded tree reads what [vget] reads in its value;
-   that step is covered by the correspondence run.) *)
-Theorem C13_routes_agree_on : forall (fs : nat) (d : node) (v : value) (p : list step) (x : value),
+             (exploded) value is the spec's value at that path;
+   route 2 - explode the document, then the model's traverse on the exploded tree
+             reaches a node with that value;
+   route 3 - the value of the exploded document (what the JSON encoder prints)
+             holds that value at that path. *)
+Theorem C13_three_routes_agree_on : forall (fs : nat) (d : node) (v : value) (p : list step) (x : value),
   merge_simple_doc fs d = true -> resolve fs d = Some v -> vget p v = Some x ->
   (forall F r, traverse F d p = ROk r ->
      exists n, r = TNode n /\ forall fe n', explode fe n = ROk n' -> veq (value_of n') x)
+  /\ (forall fe d' F r, explode fe d = ROk d' -> traverse F d' p = ROk r -> exists n, r = TNode n /\ veq (value_of n) x)
   /\ (forall fe d', explode fe d = ROk d' -> exists x1, vget p (value_of d') = Some x1 /\ veq x1 x).
-Proof. exact routes_agree_on_domain. Qed.
-Print Assumptions C13_routes_agree_on.
+Proof. exact three_routes_on_domain. Qed.
+Print Assumptions C13_three_routes_agree_on.
 
 (* the node-level statement behind route 1 *)
 Theorem C13_traversal_finds_spec_node : forall (p : list step) (d : node) (f : nat) (v : value) (F : nat) (r : tres) (x : value),
